@@ -17,7 +17,7 @@
 EXTENDS PLang
 
 Segs(P, t) == P.tasks[t].segs
-YieldLeaves(P, t, k) == StaticLeaves(t, k, Segs(P, t)[k].term.s)      \* <<[g, n, f]>>
+YieldLeaves(P, t, k) == TermLeaves(P, t, k)      \* <<[g, n, f]>>
 
 InitCfg(P, root) ==
   [ pc   |-> [t \in 1..NTasks(P) |-> IF t = root THEN 0 ELSE -1],     \* -1: not created; k: segment k was run, waiting on its yield
@@ -49,8 +49,9 @@ RunOne(P, c, t) ==       \* task t receives the result of its last yield and run
                     LET ls == YieldLeaves(P, t, k)
                         kids == {ls[i].n : i \in {j \in 1..Len(ls) : ls[j].g = "T"}}
                         items == {<<ls[i].f, ls[i].n>> : i \in {j \in 1..Len(ls) : ls[j].g = "I"}}
-                    IN [c EXCEPT !.pc = [u \in DOMAIN @ |-> IF u = t THEN k ELSE IF u \in kids /\ @[u] = -1 THEN 0 ELSE @[u]],
-                                 !.issued = @ \cup items]
+                    IN IF IsReuse(P, t, k) THEN [c EXCEPT !.pc[t] = k]         \* the same object again: nothing new is created
+                       ELSE [c EXCEPT !.pc = [u \in DOMAIN @ |-> IF u = t THEN k ELSE IF u \in kids /\ @[u] = -1 THEN 0 ELSE @[u]],
+                                      !.issued = @ \cup items]
 
 RECURSIVE Saturate(_, _)
 Saturate(P, c) ==
